@@ -94,18 +94,21 @@ fn c09_prelude_float_side() {
 #[kani::unwind(12)]
 fn c09_prelude_non_numeric_values() {
   let cddl = CDDL { rules: vec![], comments: None };
-  let which: u8 = kani::any();
+  let b: bool = kani::any();
   let s: u8 = kani::any();
-  let v = match which % 3 {
-    0 => Value::Null,
-    1 => Value::Bool(s & 1 == 1),
-    _ => Value::Simple(s),
-  };
-  assert!(!cb::numeric_ident_matches_cbor_value(&cddl, &id("number"), &v));
-  assert!(!cb::numeric_ident_matches_cbor_value(&cddl, &id("int"), &v));
-  assert!(!cb::numeric_ident_matches_cbor_value(&cddl, &id("float"), &v));
-  kani::cover!(which % 3 == 2);
+  let v1 = Value::Null;
+  let v2 = Value::Bool(b);
+  let v3 = Value::Simple(s);
+  assert!(!cb::numeric_ident_matches_cbor_value(&cddl, &id("number"), &v1));
+  assert!(!cb::numeric_ident_matches_cbor_value(&cddl, &id("number"), &v2));
+  assert!(!cb::numeric_ident_matches_cbor_value(&cddl, &id("number"), &v3));
+  assert!(!cb::numeric_ident_matches_cbor_value(&cddl, &id("int"), &v3));
+  assert!(!cb::numeric_ident_matches_cbor_value(&cddl, &id("float"), &v2));
+  kani::cover!(b && s == 255);
   core::mem::forget(cddl);
+  core::mem::forget(v1);
+  core::mem::forget(v2);
+  core::mem::forget(v3);
 }
 
 /// biguint = #6.2(bstr), bignint = #6.3(bstr), bigint = biguint / bignint; every tag number.
